@@ -15,14 +15,25 @@ type Gen struct {
 	r       *rand.Rand
 	profile string
 	// bookkeeping
-	ackIDs  []string // every ack id ever returned (live and stale)
-	snapsN  int
-	stepNo  int
-	lastTok map[string]string
+	ackIDs   []string // every ack id ever returned (live and stale)
+	snapsN   int
+	stepNo   int
+	lastTok  map[string]string
+	script   []scriptStep // scenario template still to be played (scenarios.go)
+	Scenario string
 }
 
 func NewGen(seed int64, profile string) *Gen {
-	return &Gen{r: rand.New(rand.NewSource(seed)), profile: profile, lastTok: map[string]string{}}
+	g := &Gen{r: rand.New(rand.NewSource(seed)), profile: profile, lastTok: map[string]string{}}
+	// half of the histories start with a scenario template (chosen by the history's own seed:
+	// a separate stream, so that the random part of old seeds is unchanged)
+	sr := rand.New(rand.NewSource(seed ^ 0x5ce9a210))
+	if names := scenariosFor(profile); len(names) > 0 && sr.Float64() < 0.5 {
+		g.Scenario = names[sr.Intn(len(names))]
+		g.script = genScenarios[g.Scenario](g)
+		g.stepNo = 3
+	}
+	return g
 }
 
 func (g *Gen) pick(ss []string) string { return ss[g.r.Intn(len(ss))] }
@@ -325,6 +336,18 @@ func (g *Gen) kind() string {
 
 // Next proposes the next action given the current dump and virtual time.
 func (g *Gen) Next(d *Dump, vnow int64) Action {
+	for len(g.script) > 0 {
+		st := g.script[0]
+		g.script = g.script[1:]
+		a := st(g, d, vnow)
+		if g.profile == "c15" && a.Op != nil && a.Op.Kind == "Job" && a.Op.Job != "ExpireSubs" && a.Op.Job != "DeadLetterSweep" {
+			continue // the paired client history contains no prune job
+		}
+		if g.profile == "c15" && a.Op != nil && a.Op.Kind == "Pull" {
+			a.Op.Max = 1000
+		}
+		return a
+	}
 	g.stepNo++
 	// the first steps always build something to work with
 	if g.stepNo == 1 {
